@@ -671,6 +671,49 @@ static void op_cliapi(void)
     fini();
 }
 
+/* run an external program (e.g. snoopyctl) inside this mount namespace; never goes through snoopy */
+static void op_runprog(const op_t *op)
+{
+    /* args: exe, argv..., "--", env... */
+    char **av = calloc(op->n + 2, sizeof(char *)), **ev = calloc(op->n + 2, sizeof(char *));
+    int na = 0, ne = 0, inenv = 0;
+    char *exe = dupz(op->a[0].p, op->a[0].len);
+    for (uint32_t i = 1; i < op->n; i++) {
+        char *x = dupz(op->a[i].p, op->a[i].len);
+        if (!inenv && !strcmp(x, "--")) { inenv = 1; continue; }
+        if (inenv) ev[ne++] = x; else av[na++] = x;
+    }
+    int po[2], pe[2];
+    if (pipe(po) < 0 || pipe(pe) < 0) { ev_error("pipe"); return; }
+    pid_t p = fork();
+    if (p == 0) {
+        dup2(po[1], 1); dup2(pe[1], 2);
+        int dn = open("/dev/null", O_RDONLY); dup2(dn, 0);
+        for (int fd = 3; fd < 256; fd++) close(fd);
+        rec_real_execve(exe, av, ev);
+        _exit(126);
+    }
+    close(po[1]); close(pe[1]);
+    buf_t bo = {0}, be = {0};
+    struct pollfd pf[2] = { { po[0], POLLIN, 0 }, { pe[0], POLLIN, 0 } };
+    int open_n = 2;
+    while (open_n) {
+        if (poll(pf, 2, 15000) <= 0) break;
+        for (int k = 0; k < 2; k++) if (pf[k].fd >= 0 && (pf[k].revents & (POLLIN | POLLHUP))) {
+            buf_t *b = k ? &be : &bo;
+            buf_reserve(b, 65536);
+            ssize_t r = read(pf[k].fd, b->p + b->len, 65536);
+            if (r <= 0) { close(pf[k].fd); pf[k].fd = -1; open_n--; } else b->len += (size_t) r;
+        }
+    }
+    int st = 0;
+    while (waitpid(p, &st, 0) < 0 && errno == EINTR) ;
+    ev_t e = {0};
+    ev_begin(&e, 'B'); ev_int(&e, st); ev_field(&e, bo.p ? bo.p : (unsigned char *) "", bo.len);
+    ev_field(&e, be.p ? be.p : (unsigned char *) "", be.len); ev_end(&e); ev_free(&e);
+    free(bo.p); free(be.p);
+}
+
 /* ------------------------------------------------------------------ identity oracle (C12) */
 static void op_oracle(void)
 {
@@ -802,6 +845,7 @@ static void run_ops(op_t *ops, int nops)
         case 'G': sinks_dump(); break;
         case 'Y': op_cliapi(); break;
         case 'Q': op_oracle(); break;
+        case 'B': op_runprog(op); break;
         case 'P': { buf_t b = {0}; state_snapshot(&b); ev_t e = {0}; ev_begin(&e, 'P'); ev_field(&e, b.p, b.len); ev_int(&e, heap_now()); ev_end(&e); ev_free(&e); free(b.p); break; }
         case 'X': { call_t c; call_prepare(&c, op); call_run(&c); call_release(&c); break; }
         case 'H': { char *p = dupz(op->a[0].p, op->a[0].len); if (chdir(p) < 0) ev_error("chdir"); free(p); break; }
